@@ -58,6 +58,10 @@ CLAIMED = {
                  "name set (= all hash seeds); for every full assignment and every partial assignment sliced in 1-2 (3) steps the engine proves keyword == positional == dict == definition, "
                  "remaining dimensions == unassigned variables, and agreement on the completion.",
             "Bounded: 3 variables (4 thorough), domains 2-3, fixed linear expression strings with concrete coefficients; the set-order model picks one permutation of the name universe per run.", "4/C11", S),
+    "C15": ("S", "Instances of 54 message classes (all algorithms, orchestration, discovery, replication) with symbolic numeric contents and solver-chosen discrete contents, "
+                 "computation definitions of the four graph models built from symbolic DCOPs, and AgentDef objects go through the repository's simple_repr -> JSON round-trip model -> from_repr "
+                 "(or __getstate__/__setstate__); field-by-field equality incl. relation values on every assignment is one z3 query per path. Two listed findings (infinite bounds are not JSON-encodable).",
+            "JSON is a 25-line model (real json module in concrete replay); strings come from small fixed sets; the HTTP socket is not exercised. Engine S is used instead of CrossHair (design change, see DESIGN).", "4/C15", S),
     "C16": ("S", "The DCOP structure (number of constraints, every scope) is the solver-chosen input of the three real graph builders; each explored path fixes one structure and the "
                  "builders' output is compared with the definitions computed from the scopes; the frontier is exhausted, i.e. every structure in the bound is decided.",
             "Structural property: no numeric reasoning is involved, the solver only carries the structure as a model (said plainly in DESIGN 4/C16). Bounded: n <= 4 (5), m <= 3, scopes <= 3.", "4/C16", S),
@@ -78,6 +82,9 @@ CLAIMED = {
     "C19": ("S", "A real MessagePassingComputation is driven through every history of up to 6 (8) operations among receive/post/pause/resume/start chosen by the engine; "
                  "handled == received and sent == posted, in order, exactly once, on every history.",
             "Histories are sequences of concrete operations (no numeric symbolic input); re-injected priority-19 messages are modelled as handled before newer ones (what C18 establishes for the agent queue).", "4/C19", S),
+    "C31": ("S", "AgentDef.route/hosting_cost/attribute access and create_agents (list, range, tuple-of-lists indexes) executed with symbolic route costs, default route, hosting costs, "
+                 "default hosting cost and capacity; presence of each specific entry is solver-chosen; the cost model and field-by-field equality with individually built agents are decided by z3.",
+            "Names are drawn from small fixed sets of strings (no symbolic strings); Engine S is used instead of CrossHair (design change, see DESIGN).", "4/C31", S),
 }
 
 NOT_APPLICABLE = {
